@@ -122,6 +122,103 @@ COLCODES = {50: "an input chunk is not well-formed (inner segment shorter/longer
             54: "the output chunk has a column that no input chunk has", 55: "the output chunk is not well-formed"}
 
 
+# ---------- fault-injection cases ----------
+FCODES = {60: "the fault-free run did not attempt exactly the canonical step list (log create/write/sync, renames of the new files, "
+              "deletions of the old files, log removal, then the out-of-order inputs)",
+          61: "files on disk after the failed operation differ from the model", 62: "intent-log state after the failed operation differs from the model",
+          63: "LIVE file list after the failed operation differs from the model", 64: "files loaded after the restart differ from the model",
+          65: "intent-log state after the restart differs from the model"}
+
+
+def strip_init(n):
+    return (n[:-5], True) if n.endswith(".init") else (n, False)
+
+
+def fault_case_coq(fi):
+    """-> (coq text, list of run indexes) or None when the operation replaced nothing"""
+    runs = [r for r in fi["runs"] if r["kind"] in ("dry", "error")]
+    dry = runs[0]
+    if not dry.get("events"):
+        return None
+    names = set()
+    for n in fi["start"]:
+        names.add(strip_init(n)[0])
+    for r in runs:
+        for n in (r.get("disk") or []) + (r.get("live") or []) + (r.get("reopened") or []):
+            names.add(strip_init(n)[0])
+        for e in r.get("events") or []:
+            if e["dir"] in ("o", "u"):
+                names.add(strip_init(e["dir"] + "/" + e["name"])[0])
+                if e.get("name2"):
+                    names.add(strip_init(e["dir"] + "/" + e["name2"])[0])
+    names = sorted(names)
+    ids = {n: i for i, n in enumerate(names)}
+
+    def ent(n):
+        b, i = strip_init(n)
+        return "(%s, %s)" % (coq_n(ids[b]), coq_bool(i))
+
+    def nid(n):
+        return coq_n(ids[strip_init(n)[0]])
+
+    def ev_step(e, r):
+        c = e["class"]
+        if c == "logcreate":
+            return "LogCreate"
+        if c == "logsync":
+            return "LogSync"
+        if c == "logremove":
+            return "LogRemove"
+        if c == "logwrite":
+            return "LogWrite %s %s" % (coq_list([nid(x) for x in r.get("logold") or []]), coq_list([nid(x) for x in r.get("lognew") or []]))
+        if c == "rename":
+            return "Mv %s %s" % (ent(e["dir"] + "/" + e["name"]), ent(e["dir"] + "/" + e["name2"]))
+        if c == "remove":
+            return "Rm %s" % ent(e["dir"] + "/" + e["name"])
+        raise ValueError(c)
+    unord, seen_rm, inuse = [], False, []
+    for e in dry["events"]:
+        if e["class"] == "logremove":
+            seen_rm = True
+        elif seen_rm and e["class"] in ("remove", "rename"):
+            unord.append(e["dir"] + "/" + e["name"])
+        if e["class"] == "rename" and e.get("name2") == e["name"] + ".init":
+            inuse.append(e["dir"] + "/" + e["name"])
+    fruns = []
+    for r in runs:
+        lo = r.get("logold") or dry.get("logold") or []
+        ln = r.get("lognew") or dry.get("lognew") or []
+        fruns.append("mkfrun %s %s %s %s %d%%nat %s %s %d%%nat" % (
+            "None" if r["kind"] == "dry" else "(Some %d%%nat)" % r["at"],
+            coq_list([nid(x) for x in lo]), coq_list([nid(x) for x in ln]),
+            coq_list([ent(x) for x in sorted(r.get("disk") or [], key=lambda n: (ids[strip_init(n)[0]], strip_init(n)[1]))]),
+            r.get("logs", 0), coq_list([nid(x) for x in r.get("live") or []]), coq_list([nid(x) for x in r.get("reopened") or []]),
+            r.get("logs_reopened", 0)))
+    # the state when the protocol starts: the files before the operation plus the new files written as .init
+    start = list(fi["start"]) + [n + ".init" for n in (dry.get("lognew") or [])]
+    txt = "mkfcase %s %s %s %s\n  %s\n  %s" % (
+        coq_list([coq_n(i) for i in range(len(names))]),
+        coq_list([ent(x) for x in sorted(start, key=lambda n: (ids[strip_init(n)[0]], strip_init(n)[1]))]),
+        coq_list([nid(x) for x in unord]), coq_list([nid(x) for x in inuse]),
+        coq_list([ev_step(e, dry) for e in dry["events"]]), coq_list(fruns))
+    return txt, runs
+
+
+def delete_abort_signature(run):
+    """an I/O error on removing / parking an OLD file inside the delete loop of ReplaceFiles (after the intent log was written and
+    the new files were renamed, before the log is removed); the only failure is that the LIVE store lacks rows until restart"""
+    f = run.get("failed") or {}
+    if run.get("kind") != "error" or f.get("class") not in ("remove", "rename"):
+        return False
+    if f["class"] == "rename" and f.get("name2") != f["name"] + ".init":
+        return False
+    if any(e["class"] == "logremove" for e in run.get("events") or []):
+        return False
+    if (f.get("dir", "") + "/" + f["name"]) not in (run.get("logold") or []):
+        return False
+    return all(x.startswith("answers of the live store changed") for x in run.get("fail") or [])
+
+
 def stream_split_signature(ci):
     """streaming compaction (level / full) of a group in which the chunks of one series have, together, more segments than
     max-segment-limit, so that the series must be split over several output files"""
@@ -159,21 +256,28 @@ def main(ck):
                               "Go harness cmd/c03 + internal/crashfs (recording VFS, image copy), python driver props/C03/run.py",
                               "hook lib/fileops/verif_export_c03.go (VerifSwapLocalFS)"]
     ck.coq_audit(["C03"])
-    ok = ck.coq_build(["C03/Proofs.vo", "C03/Corr.vo", "C03/ColProofs.vo", "C03/ColCorr.vo"])
+    ok = ck.coq_build(["C03/Proofs.vo", "C03/Corr.vo", "C03/ColProofs.vo", "C03/ColCorr.vo", "C03/FaultProofs.vo", "C03/FaultCorr.vo"])
     if ok:
-        ck.coq_props(["C03/Props.v"])
+        ck.coq_props(["C03/Props.v", "C03/Refuted.v"])
     binp = ck.go_build("./cmd/c03", "c03")
     if not binp:
         return
     n = 24 if ck.tier == "quick" else 400
     ncol, nseg = (60, 16) if ck.tier == "quick" else (1500, 300)
+    nfault = 12 if ck.tier == "quick" else 200
     if ck.replay:
         rp = json.load(open(ck.replay))
         rc, out = ck.run([binp, str(int(rp.get("case", 0)) + 1)], timeout=3000, env={"VERIF_SEED": str(rp.get("seed", ck.seed)),
                                                                                  "VERIF_TIER": rp.get("tier", ck.tier)})
         insts = [json.loads(l) for l in out.splitlines() if l.startswith('{"case"')]
         insts = [i for i in insts if i["case"] == rp.get("case")]
-        cols = []
+        cols, faults = [], []
+        if rp.get("faultcase") is not None:
+            fcn = int(rp["faultcase"])
+            rc, out = ck.run([binp, "0", "0", "0", str(fcn + 1)], timeout=3000, env={"VERIF_SEED": str(rp.get("seed", ck.seed)), "VERIF_TIER": rp.get("tier", ck.tier)})
+            faults = [json.loads(l) for l in out.splitlines() if l.startswith('{"faultcase"')]
+            faults = [f for f in faults if f["faultcase"] == fcn]
+            insts = insts or [{"case": -1, "op": "none", "images": [], "steps": [], "hist": ""}]
         if rp.get("colcase") is not None:
             cc = int(rp["colcase"])
             a = [binp, "0", str(cc + 1), "0"] if cc < 100000 else [binp, "0", "0", str(cc - 100000 + 1)]
@@ -182,9 +286,10 @@ def main(ck):
             cols = [c for c in cols if c["colcase"] == cc]
             insts = insts or [{"case": -1, "op": "none", "images": [], "steps": [], "hist": ""}]
     else:
-        rc, out = ck.run([binp, str(n), str(ncol), str(nseg)], timeout=3000)
+        rc, out = ck.run([binp, str(n), str(ncol), str(nseg), str(nfault)], timeout=3000)
         insts = [json.loads(l) for l in out.splitlines() if l.startswith('{"case"')]
         cols = [json.loads(l) for l in out.splitlines() if l.startswith('{"colcase"')]
+        faults = [json.loads(l) for l in out.splitlines() if l.startswith('{"faultcase"')]
     crashed = rc != 0 or "c03 done" not in out
     if crashed:
         # the real code panicked / the harness died: still apply the direct oracle to what was observed before
@@ -241,6 +346,25 @@ def main(ck):
                                  "says it completes" % (ci.get("panic"), ci["colcase"], ci["op"], ci["hist"]))
         elif ci.get("abandoned") and not ci.get("fail") and not sig:
             ck.broken.append("compaction / merge gave up without replacing files in column case %d op %s [%s]" % (ci["colcase"], ci["op"], ci["hist"]))
+    # ---- fault-injection cases: direct oracle ----
+    f_known = 0
+    f_viol = 0
+    nfruns = 0
+    for fi in faults:
+        for r in fi.get("runs") or []:
+            nfruns += 1
+            if not r.get("fail"):
+                continue
+            if delete_abort_signature(r) and ck.match_finding("C03-replace-delete-abort"):
+                ck.known_finding("C03-replace-delete-abort", "an I/O error while ReplaceFiles deletes the old files leaves the live store "
+                                                             "without the rows of the files handled so far (until restart)")
+                f_known += 1
+            elif f_viol < 3:
+                f_viol += 1
+                ck.violation({"kind": "direct-oracle", "what": r["fail"][0], "all": r["fail"][:4], "faultcase": fi["faultcase"], "op": fi["op"],
+                              "history": fi["hist"], "injection": r["kind"], "at_protocol_mutation": r["at"], "failed_mutation": r.get("failed"),
+                              "attempted": r.get("events"), "files_before": fi["start"], "files_after": r.get("disk"), "live_after": r.get("live"),
+                              "held_by_reader": fi.get("held")})
     if crashed:
         ck.cov["evaluations"] = nimg
         return
@@ -258,7 +382,7 @@ def main(ck):
     res = ck.coq_eval_many(files) if ok else []
     mism = []
     for idx, (rc2, o) in enumerate(res):
-        m = re.search(r"M\s*=\s*(.*?)\s*:\s*list", o, re.S)
+        m = re.search(r"M\s*=\s*(.*?)\s*:\s*list", o.replace("%nat", ""), re.S)
         if rc2 != 0 or not m:
             ck.broken.append("model evaluation failed on shard %d: %s" % (idx, o[-400:]))
             continue
@@ -284,7 +408,7 @@ def main(ck):
     cres = ck.coq_eval_many(cfiles) if ok and cfiles else []
     colmism = []
     for idx, (rc2, o) in enumerate(cres):
-        m = re.search(r"M\s*=\s*(.*?)\s*:\s*list", o, re.S)
+        m = re.search(r"M\s*=\s*(.*?)\s*:\s*list", o.replace("%nat", ""), re.S)
         if rc2 != 0 or not m:
             ck.broken.append("column model evaluation failed on shard %d: %s" % (idx, o[-400:]))
             continue
@@ -296,6 +420,43 @@ def main(ck):
             ci["colcase"], ci["op"], ser["sid"], COLCODES.get(code, str(code))))
         ck.nofail_detail = {"kind": "column-correspondence", "code": code, "meaning": COLCODES.get(code, ""), "colcase": ci["colcase"],
                             "op": ci["op"], "mode": ci["mode"], "history": ci["hist"], "series": ser}
+    # ---- fault model evaluation ----
+    fmod = []
+    for fi in faults:
+        t = fault_case_coq(fi)
+        if t:
+            fmod.append((fi, t[0], t[1]))
+    fshard = 8
+    ffiles = []
+    for i in range(0, len(fmod), fshard):
+        chunk = fmod[i:i + fshard]
+        txt = ("From Coq Require Import NArith ZArith List Bool. From OG Require Import C03.Model C03.FaultModel C03.FaultCorr.\n"
+               "Import ListNotations. Open Scope N_scope.\n"
+               "Definition cases : list fcase := [\n%s\n].\n"
+               "Definition M := Eval vm_compute in fmismatches cases.\nPrint M.\n") % ";\n".join(t for _, t, _ in chunk)
+        ffiles.append(("c03fault%d" % (i // fshard), txt))
+    fres = ck.coq_eval_many(ffiles) if ok and ffiles else []
+    fmism = []
+    f_current = 0
+    for idx, (rc2, o) in enumerate(fres):
+        m = re.search(r"M\s*=\s*(.*?)\s*:\s*list", o.replace("%nat", ""), re.S)
+        if rc2 != 0 or not m:
+            ck.broken.append("fault model evaluation failed on shard %d: %s" % (idx, o[-400:]))
+            continue
+        for a, b, c, d in re.findall(r"\((\d+),\s*(\d+),\s*(\d+),\s*(\d+)\)", m.group(1)):
+            fi, _, runs = fmod[idx * fshard + int(a)]
+            if int(d) == 0 and int(c) != 60:
+                f_current += 1      # the tree implements today's delete loop (variant Current) on a distinguishing run
+                if not ck.match_finding("C03-replace-delete-abort"):
+                    fmism.append((fi, runs[int(b)], int(c)))
+            else:
+                fmism.append((fi, runs[int(b)] if int(c) != 60 else runs[0], int(c)))
+    if fmism and not oracle and not col_viol and not f_viol:
+        fi, r, code = fmism[0]
+        ck.broken.append("correspondence C03 fault model/implementation differs: fault case %d op %s %s at %s: %s" % (
+            fi["faultcase"], fi["op"], r["kind"], r["at"], FCODES.get(code, str(code))))
+        ck.nofail_detail = {"kind": "fault-correspondence", "code": code, "meaning": FCODES.get(code, ""), "faultcase": fi["faultcase"], "op": fi["op"],
+                            "history": fi["hist"], "run": r, "files_before": fi["start"]}
     # ---- coverage ----
     nontriv = set()
     hist = {}
@@ -317,6 +478,15 @@ def main(ck):
         multi = any(len(c["t"]) > 1 and any(f not in c["c"] for f in ser["fields"]) for c in ser["in"])
         if multi:
             col_nontriv.add(json.dumps(ser, sort_keys=True))
+    fhist = {}
+    for fi in faults:
+        for r in fi.get("runs") or []:
+            k = r["kind"] + ("/" + (r.get("failed") or {}).get("class", "-") if r["kind"] == "error" else "")
+            fhist[k] = fhist.get(k, 0) + 1
+    ck.cov["fault_cases"] = {"cases": len(faults), "runs": nfruns, "histogram": fhist, "cases_compared_with_fault_model": len(fmod),
+                             "model_mismatches": len(fmism), "runs_matching_variant_current_only": f_current,
+                             "known_finding_failures": f_known}
+    nimg += nfruns
     ck.cov["evaluations"] = nimg + len(cols)
     ck.cov["distinct_nontrivial"] = len(nontriv) + len(col_nontriv)
     ck.cov["column_cases"] = {"operations": len(cols), "histogram": colhist, "series_compared_with_column_model": len(colmod),
